@@ -214,7 +214,8 @@ def check_C06(tier):
     if tier == "thorough":
         r = vlib.model_check("MC_Chunk.tla", "MC_Chunk_deep.cfg", wd, workers=12, timeout=3400)
         out.add_s1(r, "MC_Chunk_deep (any legal sender, THREE messages: 4.0 M distinct states)")
-    logs = chunk_logs(wd, "foreign", tier) + chunk_gen_logs(out, wd, tier, side="rx")
+    # (the big streams are library-made - a conformant sender by C07 - with chunk sizes up to 2^31-1 and 16 MiB messages)
+    logs = chunk_logs(wd, "foreign", tier) + chunk_gen_logs(out, wd, tier, side="rx") + chunk_logs(wd, "big", tier)
     chunk_validate(out, logs, wd, False, True, is_des, "c06")
     sample_events(out, logs[0][0], ("Chunk", "Feed"))
     out.assumptions = CHUNK_ASSUME + ["three-way agreement: harness intent = TLA+ reference receiver = library output "
@@ -714,13 +715,17 @@ def check_C11(tier):
     out.cov["distinct_nontrivial"] = len(own) + len(crafted)
     out.cov["own_packet1_digest_positions_seen"] = len(own)
     out.cov["received_packet1_digest_positions_exercised"] = len(crafted)
+    # own packets: the fill hook is re-seeded until every one of the 728 offsets of each role's scheme has been generated once
+    out.cov["own_offsets_exhaustive"] = len(own) >= 1456
     out.cov["exhaustive"] = False
+    if len(own) < 1456:
+        raise ToolError("C11: the own-offset sweep did not reach all 2 x 728 digest positions (%d)" % len(own))
     sample_events(out, logs[0][0], ("P1Facts", "P2Facts"), n=3)
     out.assumptions = ["HMAC-SHA256 is an uninterpreted primitive for the specification: the harness' own implementation (FIPS 180-4 / RFC 2104, "
                        "self-checked against RFC 4231 vectors at start) supplies facts about it", "fill hook for deterministic own packets",
                        "TLC; harness logger"]
-    return out.finish(rule="own packet 1: full brute-force digest scan of every generated packet (deterministic fill with varying "
-                           "seeds + real random fill), both roles; received packet 1: every one of the 728 offsets of both schemes "
+    return out.finish(rule="own packet 1: full brute-force digest scan of generated packets - the deterministic fill is re-seeded until "
+                           "ALL 728 offsets of each role's scheme were generated (plus real random fill) - both roles; received packet 1: every one of the 728 offsets of both schemes "
                            "for both roles (plus high preimages), and digest-less packets; distinct = (role, digest position) pairs")
 
 
